@@ -18,6 +18,21 @@ fn guarded<F: FnOnce() -> Value>(f: F) -> Value {
 fn paras_lossless(d: &deb822_lossless::Deb822) -> Value {
     Value::Array(d.paragraphs().map(|p| Value::Array(p.items().map(|(k, v)| json!([k, v])).collect())).collect())
 }
+fn lookups(d: &deb822_lossless::Deb822, q: &str) -> Value {
+    Value::Array(d.paragraphs().map(|p| {
+        let keys: Vec<String> = p.keys().collect();
+        let mut get = serde_json::Map::new();
+        let mut get_all = serde_json::Map::new();
+        let mut contains = serde_json::Map::new();
+        let mut ks = keys.clone(); ks.push(q.to_string());
+        for k in ks.iter() {
+            get.insert(k.clone(), match p.get(k) { Some(v) => json!(v), None => Value::Null });
+            get_all.insert(k.clone(), Value::Array(p.get_all(k).map(|v| json!(v)).collect()));
+            contains.insert(k.clone(), json!(p.contains_key(k)));
+        }
+        json!({"keys": keys, "get": get, "get_all": get_all, "contains": contains})
+    }).collect())
+}
 fn paras_lossy(d: &deb822_lossless::lossy::Deb822) -> Value {
     Value::Array(d.iter().map(|p| Value::Array(p.iter().map(|(k, v)| json!([k, v])).collect())).collect())
 }
@@ -37,7 +52,7 @@ fn op_deb822(req: &Value) -> Value {
         json!({"text": d.to_string(), "nerrors": errs.len(), "paras": paras_lossless(&d)})
     });
     let strict = guarded(|| match deb822_lossless::Deb822::from_str(&text) {
-        Ok(d) => json!({"ok": true, "text": d.to_string(), "paras": paras_lossless(&d)}),
+        Ok(d) => json!({"ok": true, "text": d.to_string(), "paras": paras_lossless(&d), "lookups": lookups(&d, &s(req, "q"))}),
         Err(e) => json!({"ok": false, "err": e.to_string()}),
     });
     let read = guarded(|| match deb822_lossless::Deb822::read(text.as_bytes()) {
